@@ -14,6 +14,7 @@ import math
 from datetime import datetime, timedelta
 
 import numpy as np
+import pandas as pd
 from hypothesis import strategies as st
 
 from tradingenv.env import TradingEnv
@@ -249,18 +250,18 @@ def events_from_stream(b):
     for t, kind, payload in b.stream:
         if kind == "Q":
             ci, bid, ask = payload
-            events.append(EventNBBO(dt(t), b.contracts[ci], bid, ask))
+            events.append(EventNBBO(stamp(b.case, t), b.contracts[ci], bid, ask))
         elif kind == "QU":
             ci, ui, bid, ask = payload
-            events.append(EventNBBO(dt(t), b.contracts[ci].contracts[ui], bid, ask))
+            events.append(EventNBBO(stamp(b.case, t), b.contracts[ci].contracts[ui], bid, ask))
         elif kind == "RATE":
-            events.append(EventNBBO(dt(t), b.rate_contract, payload, payload))
+            events.append(EventNBBO(stamp(b.case, t), b.rate_contract, payload, payload))
         elif kind == "P":
-            events.append(Ping(dt(t), payload[0], payload[1]))
+            events.append(Ping(stamp(b.case, t), payload[0], payload[1]))
         elif kind == "DISC":
-            events.append(EventContractDiscontinued(dt(t), b.contracts[payload]))
+            events.append(EventContractDiscontinued(stamp(b.case, t), b.contracts[payload]))
         elif kind == "OBS":
-            events.append(EventNewObservation(dt(t), {i: v for i, v in enumerate(payload)}))
+            events.append(EventNewObservation(stamp(b.case, t), {i: v for i, v in enumerate(payload)}))
         else:
             raise ValueError(kind)
     return events
@@ -293,7 +294,7 @@ def make_env_from(b):
     if case.get("fold"):
         lo, hi = case["fold"]
         folds = {"f": [dt(lo), dt(hi)]}
-    tr = Transmitter(timesteps=[dt(g) for g in b.grid], folds=folds,
+    tr = Transmitter(timesteps=[stamp(case, g) for g in b.grid], folds=folds,
                      markov_reset=case.get("markov", False),
                      warmup=timedelta(microseconds=case["warmup_us"]) if case.get("warmup_us") else None)
     tr.add_events(events_from_stream(b))
@@ -429,7 +430,7 @@ def log_key(state):
     return [(k, repr(i), str(t), n, str(now)) for (k, i, t, n, now) in getattr(state, "log", [])]
 
 
-def run_episode(env, actions, fold="training-set", seed=None, max_steps=None, with_log=True):
+def run_episode(env, actions, fold="training-set", seed=None, max_steps=None, with_log=True, action_kind="array64"):
     """reset + one step per action until done. Returns the trace (list of snapshots) and how it ended."""
     if seed is not None:
         np.random.seed(seed)
@@ -447,7 +448,7 @@ def run_episode(env, actions, fold="training-set", seed=None, max_steps=None, wi
             break
         mark = len(getattr(env.state, "log", []))
         try:
-            obs, reward, done, info = env.step(to_action(a))
+            obs, reward, done, info = env.step(to_action(a, action_kind))
         except Exception as exc:  # noqa
             trace.append({"exception": type(exc).__name__})
             ended = "exception:" + type(exc).__name__
@@ -462,10 +463,32 @@ def run_episode(env, actions, fold="training-set", seed=None, max_steps=None, wi
     return trace, ended
 
 
-def to_action(a):
+def to_action(a, kind="array64"):
+    """The same action expressed in one of the equivalent ways a caller may use."""
     if isinstance(a, list):
+        if kind == "list":
+            return [float(x) for x in a]
+        if kind == "tuple":
+            return tuple(float(x) for x in a)
+        if kind == "array32":
+            return np.array(a, dtype=np.float32)
         return np.array(a, dtype=float)
+    if isinstance(a, int) and kind in ("array32", "npint"):
+        return np.int64(a)
     return a
+
+
+def action_values(a, kind="array64"):
+    """The numbers the environment sees for action `a` given in form `kind` (float32 rounds the entries)."""
+    if isinstance(a, list) and kind == "array32":
+        return [float(np.float32(x)) for x in a]
+    return a
+
+
+def stamp(case, us):
+    """Timestamps are given either as datetime or as pandas.Timestamp."""
+    t = dt(us)
+    return pd.Timestamp(t) if case.get("time_type") == "timestamp" else t
 
 
 # -------------------------------------------------------------------------------------------- strategies
@@ -534,7 +557,12 @@ def episode_cases(draw, tier="quick", max_points=10, kinds=None, max_contracts=3
     return {"gaps": gaps, "contracts": specs, "bars": [[list(x) for x in row] for row in bars], "extras": extras,
             "rates": rates, "pings": pings, "latency_us": lat, "delay": delay, "actions": actions, "reward": rew,
             "fees": fees, "markup": draw(st.sampled_from([0.0, 0.0, 0.005, 0.02])), "deposit": draw(st.sampled_from([1000.0, 100.0, 12345.0])),
-            "space": ["box", -3.0, 3.0]}
+            "space": ["box", -3.0, 3.0],
+            # equivalent ways of giving the same input
+            # (pandas timestamps only with whole-second latencies: pandas.Timedelta.total_seconds() is not the correctly
+            #  rounded quotient, so an event exactly at t+latency could fall on either side of the float comparison)
+            "time_type": draw(st.sampled_from(["datetime", "datetime", "timestamp"])) if lat % US == 0 else "datetime",
+            "action_type": draw(st.sampled_from(["array64", "array64", "list", "tuple", "array32"]))}
 
 
 # ------------------------------------------------------------------------------------- futures chains
